@@ -190,7 +190,10 @@ class Check:
     # ---- model checking -------------------------------------------------
     def model_check(self, module, constants, invariants=(), properties=(), name=None,
                     spec="Spec", workers=8, timeout=900, what="", constraints=(),
-                    deadlock=True, heap="8g", coverage=False, view=None):
+                    deadlock=True, heap="8g", coverage=False, view=None, expect=()):
+        """expect: names of spec actions that must have produced at least one distinct state
+        (vacuity guard, from TLC's -coverage statistics); a zero is a tool error."""
+        coverage = coverage or bool(expect)
         name = name or ("%s_%s_%d" % (self.pid, module.split(".")[0], len(self.mc)))
         cfg = cfg_text(constants, invariants=invariants, properties=properties, spec=spec,
                        constraints=constraints, view=view)
@@ -210,6 +213,11 @@ class Check:
                 entry["ok"] = None
                 return r
             raise ToolError("TLC %s failed: %s\n%s" % (name, r.error, r.stdout[-1500:]))
+        if expect and not r.violation:
+            dead = [a for a in expect if r.coverage.get(a, (0, 0))[1] == 0]
+            entry["actions_covered"] = {a: r.coverage.get(a, (0, 0))[1] for a in expect}
+            if dead:
+                raise ToolError("vacuous model check %s: actions never taken: %s" % (name, dead))
         log("  MC %-40s %s: %d distinct / %d generated, %.1fs%s" % (
             name, what, r.distinct, r.generated, r.wall,
             "" if r.ok else "  VIOLATED " + str(r.violation)))
